@@ -227,7 +227,7 @@ func (c *Collection) Delete(id string, opts ...WriteOption) (proto.Message, erro
 		delete(c.byId, id)
 		c.bus.Send(context.TODO(), &CollectionChange{
 			Id:         id,
-			ChangeTime: c.clock.Now(),
+			ChangeTime: args.updateTime(c.clock), // honours WithWriteTime like every other write
 			ChangeType: types.ChangeType_REMOVE,
 			OldValue:   oldVal.body,
 		})
